@@ -2,9 +2,11 @@
 from __future__ import annotations
 
 import itertools
+import os
 
 import numpy as np
 
+from . import c19b
 from . import common as C
 from . import gtfiles as GF
 from . import simdata as SD
@@ -218,16 +220,52 @@ def run_output_vcf(case):
         sg._convert_haplotype = orig_conv
         sg._find_random_sample = orig_frs
     # strands: no_replacement -> from _find_random_sample (r[4]); otherwise the randint(2,size) drawn right after
-    with C.glue("reading the strand draws that follow a _convert_haplotype call"):
+    infer = False
+    try:
+        if os.environ.get("VERIF_TAPES") == "calls":  # experiment: exercise the fallback on the unchanged tree
+            raise ValueError("forced")
         for r in rec:
             if not case["no_repl"]:
                 nxt = [e for e in rp.log[r["nlog"] :] if e[0] == "randint"]
-                r["strands"] = [int(x) for x in np.atleast_1d(nxt[0][3])]
+                st = [int(x) for x in np.atleast_1d(nxt[0][3])]
+                if len(st) != len(r["inds"]) or any(x not in (0, 1) for x in st):
+                    raise ValueError("not the strand draw")
+                r["strands"] = st
+    except Exception:  # noqa: the generator log has another shape than the one read here
+        infer = True
     obs = read_output(out, case)
+    if infer:
+        with C.glue("reading the copied strands off the written alleles"):
+            _infer_strands(case, obs, rec)
     obs["tape"] = [{k: v for k, v in r.items() if k != "nlog"} for r in rec]
     # what _convert_haplotype returned per (haplotype, chromosome): block ends and per block [reference sample, label]
     obs["conv"] = [[r["ends"], [[i, p] for i, p in zip(r["inds"], r["pops"])], r["requests"]] for r in rec]
     return obs
+
+
+def _infer_strands(case, obs, rec):
+    """fallback when the strand draws cannot be read off the generator's log (another order or kind of draws): in the
+    identifiable panels every reference haplotype carries its own allele at every variant, so the strand a block was copied from
+    is read off any allele written inside the block (a block without a variant copies nothing: strand 0)"""
+    kv = kept_variants(case)
+    pre = len(case["prefix"])
+    nal = 2 * len(case["refs"])
+    shift = [case["variants"].index(v) for v in kv]
+    nchrom = len(case["chroms"])
+    for idx, r in enumerate(rec):
+        h = idx // nchrom
+        strands = []
+        lo = 0
+        for k, end in enumerate(r["ends"]):
+            s = 0
+            for j, v in enumerate(kv):
+                if cnum(v[1][pre:]) == r["chrom"] and lo < v[2] <= end or (cnum(v[1][pre:]) == r["chrom"] and k == 0 and v[2] <= end):
+                    a = obs["gts"][j][h // 2][h % 2]
+                    s = ((a - shift[j]) % nal) % 2
+                    break
+            strands.append(int(s))
+            lo = end
+        r["strands"] = strands
 
 
 def read_output(out, case):
@@ -579,6 +617,18 @@ CHECK = Check(
             nontrivial=lambda c, o: C.jdump(c),
             describe=lambda c, o: [f"reference-samples={c['nref']}", c["layout"], "out=" + c["fmt_out"]],
             rule="reference panels of 260-520 samples (two populations, the second one in the columns from 256 on, the first one there, or alternating; random 4-allelic genotypes), SAMPLE always requested: every output allele must be carried by the sample SAMPLE names, that sample must belong to the population the breakpoints give, POP must agree (oracle only: with more than 128 samples the panel cannot be made haplotype-identifiable within uint8 allele indices)",
+        ),
+        Section(
+            name="simgenotype_as_typed_in_a_shell",
+            theorems=["C03.source_matches_breakpoints"],
+            gen=c19b.gen_simgt_shell,
+            impl=lambda case: c19b.impl_simgt_shell(case, _dir),
+            oracle=c19b.oracle_simgt_shell,
+            describe=lambda c, o: ["out=" + c["out"], "pop_field" if c["pop"] else "no-pop_field", "sample_field" if c["sample"] else "no-sample_field"],
+            setup=setup,
+            teardown=teardown,
+            nontrivial=lambda c, o: C.jdump(c),
+            rule="`python -m haptools simgenotype` as a process of its own in a working directory whose name holds a blank, every input by relative path, --out a bare name, an upper-case spelling (SIM.VCF), a compressed or BCF name with a blank, a nested and a dotted name, with and without --pop_field / --sample_field: exit status 0, the named file exists, breakpoints and genotypes with their POP / SAMPLE annotations equal what validate_params + simulate_gt + write_breakpoints + output_vcf write for the same inputs, seed and flags",
         ),
     ],
     trusted=["numpy searchsorted/insert/diff/repeat contracts (exercised)", "pysam / pgenlib writing what they are given; cyvcf2 / pgenlib reading the panel (C07/C08)", "_convert_haplotype's recorded outputs are the tape of the run (its choices are checked against the sample-info populations by the oracle)"],
